@@ -10,9 +10,9 @@ ID = "C12"
 LEAN_MODULES = ["NdInterp.Props.C12", "NdInterp.Props.RatTie"]
 THEOREM_FILES = [("NdInterp/Props/C12.lean", "C12_")]
 RULE = ("every word over {<,=,>} of consecutive-pair relations up to length L (quick 8, thorough 11), realised as "
-        "rational and as f64 vectors in contiguous / strided / reversed views; every NaN placement in f64 vectors up to "
+        "rational, f64 and i64 (small and > 2^53) vectors in contiguous / strided / reversed views; every NaN placement in f64 vectors up to "
         "length 6 (quick) / 8 (thorough); random long vectors. non-trivial = vector of length >= 2; distinct = distinct case line")
-PARTIAL = ["i32/i64 element types are covered by the generic theorem (any linear order) but not run through the protocol"]
+PARTIAL = ["i32 is covered by the generic theorem (any linear order) but not run through the protocol (i64 is)"]
 ASSUMPTIONS = ["IEEE comparison on non-NaN f64 is a linear order (C12_classify applies to NaN-free float data through that)",
                "NaN compares false with everything (C12_nan's BadPair hypothesis for pairs containing NaN)"]
 
@@ -92,6 +92,14 @@ def generate(rng, tier):
                     vals.append(ext_pool[i])
                 if ok:
                     cases.append({"line": "F mono " + t_vec(vals, ff, rng.choice(gen.LAYS_1D)), "meta": {"v": vals}})
+    # i64 vectors: every word up to length 5 at small and at huge magnitude (neighbours closer than the f64 spacing above 2^53)
+    for n in range(1, 6):
+        for word in itertools.product("<=>", repeat=n):
+            for base in (rng.randint(-3, 3), 2 ** 53 + rng.randint(0, 5), 2 ** 60, -(2 ** 58), 1_668_400_000_000_000_000):
+                v = realise(word, base)
+                if rng.random() < 0.5:
+                    v = [base + (x - base) * rng.choice([1, 2, 100, 255]) for x in v]
+                cases.append({"line": "I mono " + t_vec(v, gen.fi, rng.choice(gen.LAYS_1D)), "meta": {"v": v}})
     # random long vectors
     for _ in range(60 if tier == "quick" else 600):
         n = rng.randint(10, 400)
